@@ -28,6 +28,7 @@ type Solver struct {
 	pushed  bool
 	tb      *TB
 	dead    bool
+	killed  bool
 }
 
 type solverError struct{ msg string }
@@ -123,9 +124,37 @@ func (s *Solver) readLine() string {
 	l, err := s.out.ReadString('\n')
 	if err != nil {
 		s.dead = true
+		if s.killed {
+			panic(solverError{"solver did not honour its time limit and was killed"})
+		}
 		panic(solverError{"solver died: " + err.Error()})
 	}
 	return strings.TrimSpace(l)
+}
+
+// readAnswer waits for the answer to a check-sat; z3 sometimes ignores its :timeout inside a preprocessing
+// tactic, so a watchdog kills the process when nothing comes back within twice the limit plus 30 s (the
+// instance is then inconclusive, never passed)
+func (s *Solver) readAnswer(timeoutMs int) string {
+	limit := 40 * time.Minute
+	if timeoutMs > 0 {
+		limit = time.Duration(2*timeoutMs)*time.Millisecond + 30*time.Second
+	}
+	done := make(chan struct{})
+	go func() {
+		select {
+		case <-done:
+		case <-time.After(limit):
+			s.killed = true
+			s.cmd.Process.Kill()
+		}
+	}()
+	defer close(done)
+	r := s.readLine()
+	for r == "" {
+		r = s.readLine()
+	}
+	return r
 }
 
 // Check returns "sat", "unsat" or "unknown" for the conjunction of the given boolean terms.
@@ -153,10 +182,7 @@ func (s *Solver) Check(timeoutMs int, conj ...*Term) string {
 	}
 	s.send("(check-sat)")
 	s.in.Flush()
-	r := s.readLine()
-	for r == "" {
-		r = s.readLine()
-	}
+	r := s.readAnswer(timeoutMs)
 	if strings.HasPrefix(r, "(error") {
 		panic(solverError{"solver error: " + r})
 	}
@@ -290,10 +316,7 @@ func (s *Solver) Enumerate(tb *TB, g, t *Term, max int, timeoutMs int) (vals []u
 		}
 		s.send("(check-sat)")
 		s.in.Flush()
-		r := s.readLine()
-		for r == "" {
-			r = s.readLine()
-		}
+		r := s.readAnswer(timeoutMs)
 		s.nCheck++
 		if r == "unsat" {
 			return vals, true
